@@ -24,6 +24,7 @@ import (
 	"sync"
 	"time"
 
+	homonym "verifharness/c05homonym"
 	"verifharness/core"
 	"verifharness/hplug"
 	"verifharness/plangen"
@@ -842,7 +843,13 @@ func behave(ctx context.Context, p *hplug.Plugin, req any) (any, *plugins.Error)
 		case 1:
 			resp = good()
 		case 2: // a non-nil interface value whose dynamic type is not the declared one
-			switch (h >> 4) % 4 {
+			switch (h >> 4) % 5 {
+			case 4: // a different type whose %T text equals the declared type's
+				if alt {
+					resp, respFl = &homonym.AltResp{Echo: path, M: map[string]int{"k": k}}, "bad:homonym *hplug.AltResp (other package, same %T)"
+				} else {
+					resp, respFl = homonym.Resp{Path: path, Value: int64(k)}, "bad:homonym hplug.Resp (other package, same %T)"
+				}
 			case 0:
 				if alt {
 					resp, respFl = hplug.Resp{Path: "wrong"}, "bad:Resp value"
